@@ -341,7 +341,7 @@ for line in sys.stdin:
     out = []
     for d in job["docs"]:
         try:
-            doc = json.loads(d, parse_float=Decimal)
+            doc = json.loads(d)      # binary floats: in Draft 7 a number with a zero fraction IS an integer
             out.append("1" if v.is_valid(doc) else "0")
         except Exception:
             out.append("0")
@@ -530,10 +530,22 @@ class Campaign:
         """indices of jobs whose driver process survived"""
         return [i for i, r in enumerate(self.results) if r is not None and r.get("known")]
 
-    def evaluate(self, name, imports, defs, shard=50):
+    def evaluate(self, name, imports, defs, shard=50, select=None):
+        """select: optional {job index: [document indices]} restricting each case to some of its documents
+        (e.g. those the reference validator accepted); jobs absent from it are skipped.  The Equals matrix is
+        dropped for restricted cases."""
         idx = self.live()
-        cases = [(self.jobs[i]["sid"], gcase_term(self.jobs[i]["sid"], self.jobs[i]["sid"], self.jobs[i]["type"],
-                                                  self.jobs[i]["pydocs"], self.results[i])) for i in idx]
+        if select is not None:
+            idx = [i for i in idx if select.get(i)]
+        cases = []
+        for i in idx:
+            j, r = self.jobs[i], self.results[i]
+            pydocs = j["pydocs"]
+            if select is not None:
+                keep = select[i]
+                pydocs = [pydocs[d] for d in keep]
+                r = {"res": [r["res"][d] for d in keep], "eq": []}
+            cases.append((j["sid"], gcase_term(j["sid"], j["sid"], j["type"], pydocs, r)))
         ev = eval_cases(self.ctx, name, imports, self.batch, cases, "gcase", defs, shard=shard)
         return {k: [idx[x] for x in v] for k, v in ev.items()}
 
